@@ -27,21 +27,30 @@ ASSUMPTIONS = [
     "trajectories are only compared between runs using the same sparse format (summation order may legitimately depend on the format)",
 ]
 TIERS = {
-    "quick": {"worlds": 330, "wall": 150, "cap": 16, "limit": 90.0},
+    "quick": {"worlds": 420, "wall": 170, "cap": 16, "limit": 90.0},
     "thorough": {"worlds": 5000, "wall": 1700, "cap": 80, "limit": 240.0},
 }
-GATES = ("reuse.cached", "reuse.memo", "worlds.scaled", "worlds.offset_rows", "worlds.slack_rows")
+GATES = ("reuse.cached", "reuse.memo", "reuse.retain", "worlds.scaled", "worlds.offset_rows", "worlds.slack_rows", "worlds.int_bounds", "worlds.dup_coo", "worlds.zero_in_start")
 
 
 def generate(rng, seed, index, tier):
     fam = str(rng.choice(["qp", "nlp", "degenerate", "domain"], p=[0.5, 0.35, 0.1, 0.05]))
     spec, x0, y0 = gen.gen_problem(rng, fam)
-    kw = gen.gen_params(rng, spec, x0, y0, p_knob=0.45, reporting=False, scaling=False)
+    kw = gen.gen_params(rng, spec, x0, y0, p_knob=0.45, reporting=False, scaling=False, numeric=0.15)
     # aliasing bugs live in one formulation each: sweep step solvers and Newton types uniformly
     kw["step_solver_type"] = str(rng.choice(["Standard", "Extended", "Symmetric", "Asymmetric"]))
     if kw.get("linear_solver_type") == "MINRES" and kw["step_solver_type"] != "Symmetric":
         kw["linear_solver_type"] = "LU"
-    kw["newton_type"] = str(rng.choice(["Simplified", "Full", "ActiveSet", "Globalized"], p=[0.3, 0.3, 0.3, 0.1]))
+    kw["newton_type"] = str(rng.choice(["Simplified", "Full", "ActiveSet", "Globalized"], p=[0.25, 0.25, 0.25, 0.25]))
+    if kw["newton_type"] == "Globalized" and rng.random() < 0.5:
+        kw["step_control_type"] = "ResiduumRatio"  # the multi-step controllers mostly give up in the line search
+    if spec["m"] and rng.random() < 0.3:
+        # equality rows only: no slack columns, so the core works on the user's own Jacobian object
+        spec["cl"] = np.array(spec["cl"], float)
+        spec["cu"] = np.array(spec["cu"], float)
+        for i in range(spec["m"]):
+            v = spec["cl"][i] if np.isfinite(spec["cl"][i]) else spec["cu"][i]
+            spec["cl"][i] = spec["cu"][i] = float(np.round(v, 3))
     if rng.random() < 0.3:
         spec["m"], spec["A"], spec["B"], spec["b"], spec["cl"], spec["cu"] = 0, np.zeros((0, spec["n"])), np.zeros((0, spec["n"])), np.zeros(0), np.zeros(0), np.zeros(0)
         y0 = np.zeros(0)
@@ -55,6 +64,16 @@ def generate(rng, seed, index, tier):
             kw["scaling_dual"] = "y0"
     kw["iteration_limit"] = int(rng.integers(4, TIERS[tier]["cap"] + 1))
     kw = gen.quiet_params(kw)
+    if fam in ("qp", "nlp") and rng.random() < 0.15:
+        x0 = gen.integer_bounds(rng, spec, x0)
+    if rng.random() < 0.25:
+        spec["dup"] = True
+    if rng.random() < 0.25:
+        # exact zeros in the start (which is also the nominal / scaling point of the automatic scalings)
+        x0 = np.array(x0, float)
+        for j in range(spec["n"]):
+            if spec["xl"][j] <= 0.0 <= spec["xu"][j] and rng.random() < 0.6:
+                x0[j] = 0.0
     return gen.base_world(seed, ID, index, spec, x0, y0, kw, case={"keep_policy": True})
 
 
@@ -82,10 +101,16 @@ def case(world):
         bump("worlds.offset_rows")
     if any(l != u for l, u in zip(p["cl"], p["cu"])):
         bump("worlds.slack_rows")
+    if p.get("int_bounds"):
+        bump("worlds.int_bounds")
+    if p.get("dup"):
+        bump("worlds.dup_coo")
+    if any(v == 0.0 for v in world["x0"]):
+        bump("worlds.zero_in_start")
     ctx0 = {"knobs": knob_key(world), "scaling": sc}
     for fmt in ("coo", "csr", "csc"):
         ref = None
-        for policy in ("fresh", "cached", "memo"):
+        for policy in ("fresh", "cached", "memo", "retain"):
             sub = {"fmt": fmt, "policy": policy}
             if only is not None and only != sub and policy != "fresh":
                 continue
@@ -112,6 +137,10 @@ def case(world):
                     viol.append(V(ID, "weights-modified", "scaling weights were modified", sub, ctx))
             if prm.scaling_primal is not None and (prm.scaling_primal.tobytes() != ex.x0.tobytes()):
                 viol.append(V(ID, "weights-modified", "scaling_primal was modified", sub, ctx))
+            if ex.params_changed:
+                viol.append(V(ID, "params-modified", "the caller's Params object was modified by the solve: %s" % ex.params_changed, sub, ctx))
+            if dev.arg_mutations:
+                bump("argument_arrays_overwritten_after_the_call", len(dev.arg_mutations))
             # reuse statistics
             if policy == "cached" and dev.const:
                 if any(e[4] > 1 for e in dev.handed if any(e[1] is o for o in dev.const.values())):
@@ -119,6 +148,9 @@ def case(world):
             if policy == "memo":
                 if any(e[4] > 1 for e in dev.handed):
                     bump("reuse.memo")
+            if policy == "retain":
+                if any(e[4] > 1 for e in dev.handed):
+                    bump("reuse.retain")
             # oracle B: twins
             if policy == "fresh":
                 ref = ex
